@@ -22,8 +22,8 @@ BOUNDS = {
     "thorough": "same rows; operator cross-check (real Scalar arithmetic on the components) on every decomposable row",
 }
 ASSUMPTIONS = ["A-FP", "A-TABLE: the oracle's unit grammar and SI-prefix list are the specification (written from the property text)",
-               "'to the precision the table is written in' = relative tolerance 5*10^-(s-1) (five units in the last written digit), s = fewest significant digits among the literals involved "
-               "(literals with <= 3 significant digits - 1000, 60, 2.54, 0.5 - count as exact); never tighter than 1e-9",
+               "'to the precision the table is written in' = relative tolerance = sum over the literals involved (the row's and its components', weighted by |exponent|) of one unit in the literal's last "
+               "written digit (literals with <= 3 significant digits - 1000, 60, 2.54, 0.5 - count as exact); never tighter than 1e-9",
                "temperature units inside compounds use the slope (temperature difference), not the offset", "symbols whose grammar reading is debatable are "
                "excluded by the explicit list EXCLUDED (recorded in evidence), not recorded as findings"]
 EXHAUSTIVE = {"quick": True, "thorough": True}
@@ -161,22 +161,38 @@ def run(cfg, V):
         if den is not None:
             acc = acc / den
         o["built"] = (acc.GetValue(), qmap(acc))
+        if len(comps) == 1 and mk(1.0, comps[0][0]).GetQuantityType() in db.categories_to_quantity_types and getattr(U[comps[0][0]].tobase, "__a__", 0.0) == 0.0:
+            # a single-component power / reciprocal row of a scale-only unit (an offset has no meaning under an exponent): the built scalar re-expressed in the base unit with the same exponent (exponent conversion route)
+            c, e = comps[0]
+            base_c = db.GetUnits(U[c].quantity_type)[0]
+            o["built_in_base"] = acc.GetValue([(base_c, e)])
     return o
 
 
+def _ulp_rel(v):
+    """one unit in the last written digit of a literal, relative to the literal (0 for literals with <= 3 significant digits: exact by definition)"""
+    m = repr(float(v)).lower().split("e")[0].replace(".", "").replace("-", "").lstrip("0").rstrip("0")
+    if len(m) < 4:
+        return Fraction(0)
+    return Fraction(1, 10 ** (len(m) - 1)) / Fraction(int(m), 10 ** (len(m) - 1))
+
+
 def _tol(cfg, U):
-    digs = []
-    names = [cfg["u"]] + ([c for c, _ in cfg["comps"]] if cfg["k"] == "compound" else [cfg["base"]])
-    for n in names:
-        digs += [_sig_digits(v) for v in _coeffs(U[n])]
-    s = min(digs) if digs else 99
-    return max(5 * Fraction(1, 10 ** (s - 1)), Fraction(1, 10**9)) if s < 99 else Fraction(1, 10**9)
+    """error budget of a row against its composition: each literal involved may be off by one unit in its last written digit, weighted by its exponent"""
+    t = Fraction(0)
+    names = [(cfg["u"], 1)] + ([(c, abs(e)) for c, e in cfg["comps"]] if cfg["k"] == "compound" else [(cfg["base"], 1)])
+    for n, w in names:
+        for v in _coeffs(U[n]):
+            t += w * _ulp_rel(v)
+    return max(t, Fraction(1, 10**9))
 
 
 def props(cfg, T, obs):
     if isinstance(obs, Raised):
         if obs.isa(ZeroDivisionError):
             return []
+        if obs.isa(ValueError) and cfg["k"] == "compound" and len(cfg["comps"]) == 1 and cfg["comps"][0][1] < 0:
+            return []  # the exponent conversion route takes 0 ** (1/negative): math domain error for the amount 0 (C02 states this exemption)
         return [("the row's closure and the component arithmetic do not raise", False)]
     if cfg["k"] == "count":
         return [("the grammar still decomposes the table (about 950 compound and 150 prefixed rows expected)", obs["n_compound"] >= 700 and obs["n_prefix"] >= 80)]
@@ -200,6 +216,10 @@ def props(cfg, T, obs):
         # base magnitude of the value built by the real operators from the components (x in the first component, 1 elsewhere)
         P.append(("a Scalar in the named unit and the same amount built with * and / from Scalars in the component units are the same physical amount",
                   zabs(named - mag_of(bv, bq) * rv(Fraction(int(cfg["mult"][0]), int(cfg["mult"][1])))) <= tol * zabs(named) + rv(Fraction(1, 10**13))))
+    if "built_in_base" in obs:
+        mult = rv(Fraction(int(cfg["mult"][0]), int(cfg["mult"][1])))
+        P.append(("the built Scalar converted to the base unit (same exponent) equals the named row's base amount",
+                  zabs(named - term(obs["built_in_base"]) * mult) <= tol * zabs(named) + rv(Fraction(1, 10**13))))
     if cfg.get("canary"):
         P.append(("canary:ft/min has the factor of ft", zabs(named - x * slope_of(U["ft"].tobase)) <= tol * zabs(x) * 2))
     return P
